@@ -35,6 +35,9 @@ NEVER_NONE = {"self._apply_axis", "self._get_score", "self.preaggregate", "nparr
               "pylist", "map", "abs", "isnan", "isinf", "and", "or", "not", "cmp_lt", "cmp_le", "cmp_eq", "cmp_ne", "len"}
 
 
+LOOP_NAMING = "space"       # "space": a loop symbol is named by what the loop runs over; "order": by the loop's position
+
+
 class NotComparable(Exception):
     pass
 
@@ -116,6 +119,20 @@ def canon(r, loopvars, memo=None):
             elif len(nones) == 1 and len(sh) > 2:
                 return Rat.const(0 if at.func == "cmp_eq" else 1)      # arithmetic is never None
         if at.func == "map" and len(at.args) == 2 and isinstance(at.args[0], Rat) and isinstance(at.args[1], Rat):
+            # a comprehension over a comprehension is the comprehension of the composed element: [f(x) for x in [g(y) for y in Y]]
+            # is [f(g(y)) for y in Y] (no conditions on either; the intermediate list used through its element only)
+            inner = at.args[1].as_atom("map")
+            if inner is not None and len(inner.args) == 2 and isinstance(inner.args[0], Rat) and isinstance(inner.args[1], Rat):
+                sk = at.args[1].key()
+                ibody = inner.args[0]
+
+                def sub(a2):
+                    if a2.func == "elem" and len(a2.args) == 1 and isinstance(a2.args[0], Rat) and a2.args[0].key() == sk:
+                        return ibody
+                    return None
+                nb = form.map_atoms(at.args[0], sub)
+                if sk not in nb.key():
+                    return form.apply("map", [nb, inner.args[1]])
             # a comprehension whose element does not depend on the loop variable: only the length of the sequence matters
             body, seq = at.args
             el = form.apply("elem", [seq])
@@ -291,15 +308,22 @@ def _summarize(prog, qual, own=True):
     # allocation): the names a programmer gave to locals must not matter
     ren = {}
     import hashlib
+    _for_ordinal = -1
     for lp in ev.loops:
         st = lp["node"]
         if isinstance(st, ast.For):
+            _for_ordinal += 1
             names = [t.id for t in ast.walk(st.target) if isinstance(t, ast.Name)]
             it = lp["iter"]
             ik = _iteration_space(it).key() if isinstance(it, Rat) else repr(it)     # range(0, n) and range(n) are one loop
             # a loop is identified by what it iterates over and by its nesting depth (not by the name of its variable, nor by the order
             # in which branches of an if are written); sequential loops over the same thing may share the symbol (alpha-renaming)
-            tag = "L" + hashlib.md5(ik.encode()).hexdigest()[:8] + "d%d" % lp.get("depth", 0)
+            if LOOP_NAMING == "order":
+                # second attempt (refsub): loops named by their order of appearance and depth.  Either naming is a renaming of bound
+                # symbols applied to both sides alike, so a proof under either one is a proof.
+                tag = "L#%dd%d" % (_for_ordinal, lp.get("depth", 0))
+            else:
+                tag = "L" + hashlib.md5(ik.encode()).hexdigest()[:8] + "d%d" % lp.get("depth", 0)
             for j, nm in enumerate(names):
                 ren.setdefault(nm, "%s_%d" % (tag, j))
     loopvars["__rename__"] = ren
@@ -327,8 +351,33 @@ def _summarize(prog, qual, own=True):
 
     shared_memo = {}
 
+    # read-back of a dictionary entry written earlier on the same path: D[k] = v ... D[k]  is v  (no store to D, no call that could
+    # reach D in between).  Filled while the events are replayed in order, below.
+    rb = {"entries": {}, "conds": None}
+
+    def read_back(w):
+        if not rb["entries"] or not isinstance(w, Rat) or "getitem(" not in w.key():
+            return w
+        cur = rb["conds"]
+
+        def fn(at):
+            if at.func == "getitem" and len(at.args) == 2 and isinstance(at.args[0], Rat):
+                ix = at.args[1]
+                ik = ix.key() if isinstance(ix, Rat) else ("(" + ",".join(x.key() if isinstance(x, Rat) else repr(x) for x in ix) + ")" if isinstance(ix, tuple) else repr(ix))
+                if isinstance(ix, tuple) and len(ix) == 1 and isinstance(ix[0], Rat):
+                    ik = ix[0].key()
+                hit = rb["entries"].get((at.args[0].key(), ik))
+                if hit is not None and cur is not None and hit[1] <= cur:
+                    return hit[0]
+            return None
+        try:
+            return form.map_atoms(w, fn)
+        except form.Undefined:
+            return w
+
     def cn(v, conds=()):
         w = canon(v, loopvars, shared_memo)
+        w = read_back(w)
         # (simplify_conditionals is available but not applied: hoisted versus nested conditions need a full case split to be
         #  normalised consistently on both sides, which is too expensive on the large functions; such pairs are left "not proven")
         return w
@@ -393,7 +442,14 @@ def _summarize(prog, qual, own=True):
         S.effects.setdefault(key, []).append(pre)
         S.raw.append(("effect", "loop:%s:%d" % (kind, lp.get("depth", 0)), (space,), pre))
     for e in ev.events:
+        rb["conds"] = None
         pre = cform(e["conds"])
+        rb["conds"] = frozenset((c.key(), pol) for c, pol in e["conds"] if isinstance(c, Rat))
+        if e["kind"] == "call" and rb["entries"] and not e.get("inlined"):
+            nm = str(e.get("name") or "")
+            mentioned = " ".join(a.key() for a in list(e.get("args") or []) + list((e.get("kwargs") or {}).values()) + [e.get("recv")] if isinstance(a, Rat))
+            if nm.startswith("self.") or any(dk in mentioned for (dk, _ik) in rb["entries"]):
+                rb["entries"].clear()          # the callee may reach the dictionary
         if e["kind"] in ("assert", "raise", "with"):
             v = e.get("value")
             S.effects.setdefault((e["kind"], ckey(v, e["conds"])), []).append(pre)
@@ -417,6 +473,11 @@ def _summarize(prog, qual, own=True):
             key = ("store", ckey(old, e["conds"]), idx, ckey(e["value"], e["conds"]))
             S.effects.setdefault(key, []).append(pre)
             S.raw.append(("effect", "store", (craw(old), craw(tuple(e["indices"])), craw(e["value"])), pre))
+            if isinstance(old, Rat) and old.as_atom("new:dict") is not None and len(e["indices"]) == 1 and isinstance(e["value"], Rat):
+                dk = cn(old).key()
+                for k_ in [k_ for k_ in rb["entries"] if k_[0] == dk]:
+                    del rb["entries"][k_]          # another key of the same dictionary may be the same key at run time
+                rb["entries"][(dk, idx[0])] = (cn(e["value"]), rb["conds"])
         elif e["kind"] == "inplace":
             before = e.get("before")
             on_self = str(e.get("name") or "").startswith("self.")
@@ -429,6 +490,8 @@ def _summarize(prog, qual, own=True):
         elif e["kind"] == "call" and e.get("stmt"):
             name = e["name"] or ""
             node = e["node"]
+            if e.get("inlined"):
+                continue                        # evaluated in place: its stores, calls and attribute values are in the summary themselves
             if isinstance(node.func, ast.Attribute) and node.func.attr in ("append", "add", "extend", "insert", "update", "sort") and isinstance(node.func.value, ast.Name):
                 recv = node.func.value.id
                 if recv != "self":
@@ -513,6 +576,30 @@ def compare(S1, S2):
     e1 = {repr(k): v for k, v in S1.effects.items()}
     e2 = {repr(k): v for k, v in S2.effects.items()}
     return _match_tables(e1, e2, {}, {}, "effects")
+
+
+def prove(prog_ref, prog_cur, qual):
+    """The full comparison as the reference substitution uses it: direct, then by cases; loop symbols named by iteration space, and -
+    when the remaining difference mentions loop symbols - once more named by order.  -> None when proven equal, else the reason.
+    Raises NotComparable / AnalysisError / symeval.Undecided when a side is outside the fragment."""
+    global LOOP_NAMING
+    from . import symeval
+    r = "?"
+    for naming in ("space", "order"):
+        LOOP_NAMING = naming
+        try:
+            symeval.set_program(prog_ref)
+            s1 = summarize(prog_ref, qual)
+            symeval.set_program(prog_cur)
+            s2 = summarize(prog_cur, qual)
+            r = compare(s1, s2)
+            if r is not None and compare_by_cases(s1, s2) is None:
+                r = None
+        finally:
+            LOOP_NAMING = "space"
+        if r is None or "$L" not in str(r):
+            break
+    return r
 
 
 def equivalent(prog_ref, prog_cur, qual):
